@@ -597,3 +597,28 @@ func (s *SQLSite) argsFromHelper(v ssa.Value) {
 func (s *SQLSite) argC(i int) cval {
 	return cval{v: s.Args[i], stack: s.ArgStack[i]}
 }
+
+// globalStoredOnlyInInit: g is written by its package initialiser and nowhere else.
+func (w *World) globalStoredOnlyInInit(g *ssa.Global) bool {
+	for _, fn := range w.RepoFuncs() {
+		if fn.Name() == "init" && fn.Pkg == g.Pkg {
+			continue
+		}
+		stored := false
+		allInstrs(fn, func(in ssa.Instruction) {
+			if st, ok := in.(*ssa.Store); ok && st.Addr == ssa.Value(g) {
+				stored = true
+			}
+			// the map itself may be updated anywhere it is loaded: a MapUpdate on a load of g
+			if mu, ok := in.(*ssa.MapUpdate); ok {
+				if u, isU := mu.Map.(*ssa.UnOp); isU && u.X == ssa.Value(g) {
+					stored = true
+				}
+			}
+		})
+		if stored {
+			return false
+		}
+	}
+	return true
+}
